@@ -19,7 +19,7 @@ def hist_stream(c, tier, seed, extra_args=None, n=None, corpus=True):
     """history observer on the implementation (oracle evaluated in the harness, no model involved)"""
     exe = os.path.join(V.BUILD, "harness-c05")
     if n is None:
-        n = 1500 if tier == "quick" else 60000
+        n = 1000 if tier == "quick" else 60000
     jobs = U.corpus_jobs() if corpus else []
     jp = U.write_jobs("c05_corpus.json" if corpus else "c05_nocorpus.json", jobs)
     args = ["-seed", str(seed), "-n", str(n), "-tier", tier, "jobs=" + jp] + (extra_args or [])
@@ -29,21 +29,27 @@ def hist_stream(c, tier, seed, extra_args=None, n=None, corpus=True):
                        timeout=300 if tier == "quick" else 2400)
     with concurrent.futures.ThreadPoolExecutor(NSHARD) as ex:
         rs = list(ex.map(one, range(NSHARD)))
-    digests, viols, crashes, skipped = {}, [], [], {}
+    digests, viols, crashes, skipped, texts = {}, [], [], {}, {}
     for r in rs:
         crashes += r["crashes"]
         for line in r["records"]:
             if line.startswith("H "):
-                _, idx, mode, origin, nout, dig = line.split(" ")
+                parts = line.split(" ")
+                if len(parts) != 6:
+                    continue
+                _, idx, mode, origin, nout, dig = parts
                 digests[(int(idx), int(mode))] = (origin, nout, dig)
                 c.note_case(line, nontrivial=nout != "0")
+            elif line.startswith("J "):
+                k, _, t = line[2:].partition("\t")
+                texts[int(k)] = t
             elif line.startswith("V "):
                 case, _, what = line[2:].partition("\t")
                 viols.append((case, what))
             elif line.startswith("S "):
                 k = line.split(" ")[2]
                 skipped[k] = skipped.get(k, 0) + 1
-    return dict(digests=digests, viols=viols, crashes=crashes, skipped=skipped, corpus=len(jobs),
+    return dict(digests=digests, viols=viols, crashes=crashes, skipped=skipped, corpus=len(jobs), texts=texts,
                 timed_out=any(r["timed_out"] for r in rs))
 
 
@@ -79,8 +85,12 @@ def run(tier, seed):
     bg = {}
 
     def background():
-        bg["h"] = hist_stream(cbg, tier, seed)
-        bg["h2"] = hist_stream(cbg, tier, seed, n=0 if tier == "quick" else 5000, corpus=False)
+        try:
+            bg["h"] = hist_stream(cbg, tier, seed)
+            bg["h2"] = hist_stream(cbg, tier, seed, n=0 if tier == "quick" else 5000, corpus=False)
+        except Exception as e:   # reported below as a broken observer, never swallowed
+            import traceback
+            bg["error"] = traceback.format_exc()
     th = threading.Thread(target=background)
     th.start()
     proved = c.prove(PROPS)
@@ -106,6 +116,9 @@ def run(tier, seed):
     th.join()
     c.evaluations += cbg.evaluations
     c.distinct |= cbg.distinct
+    if "error" in bg or "h2" not in bg:
+        c.broken_correspondence("hist", None, "history observer failed: " + bg.get("error", "?"))
+        return c.finish("none")
     h, h2 = bg["h"], bg["h2"]
     for case, what in h["viols"][:10]:
         c.failing_input(what.split(":")[0], case, what)
@@ -121,7 +134,8 @@ def run(tier, seed):
         for k in sorted(common):
             if h["digests"][k][0] == "probe" and h2["digests"][k][0] == "probe" and h["digests"][k] != h2["digests"][k]:
                 ndiff += 1
-                c.failing_input("outputs differ between two processes", "c05 probe-index=%d alias=%d" % k,
+                c.failing_input("outputs differ between two processes",
+                                h["texts"].get(k[0], "c05 alias=%%d probe-index=%d" % k[0]) % k[1],
                                 "%s vs %s" % (h["digests"][k], h2["digests"][k]))
         c.notes.append("cross-process digest comparison over %d probe histories: %d differ" % (len(common), ndiff))
     # 4. a broken obligation (e.g. a new map-iteration or container-write site): name the sites and search
